@@ -17,6 +17,7 @@ other connection into `q` (`KeyOnce`); reported output times do not go back (`Mo
 finding about non-monotone output times).
 -/
 import MosaikProofs.Sched.CacheRef
+import MosaikProofs.Lemmas.Data
 namespace Mosaik
 
 /-! ### one connection's view of a buffer -/
@@ -432,5 +433,870 @@ theorem afterStep_pfEq (cfg : Cfg) (s : State) (p : Sid) (c : TT) : PFEq s (afte
   · split
     · exact h3.trans (finish_pfEq cfg _ p c)
     · exact h3.trans (pfEq_upd _ _ _ (fun _ => rfl))
+
+/-! ### the invariant of one pushed connection `pe` from `src` to `q` -/
+
+/-- `due` lies after the last step begun (`T = none`: no step yet) -/
+def after (T : Option Nat) (due : Nat) : Bool :=
+  match T with
+  | none => true
+  | some t => decide (t < due)
+
+def lastBegun (x : SimSt) : Option Nat := x.begun.head?.map TT.time
+
+def csh (pe : Port × Sid × TI × Port) : Nat := tier pe.2.2.1.tiers 0
+def chist (src : Sid) (pe : Port × Sid × TI × Port) (log : List Event) : List (Nat × Val) := pushHist src pe.1 (csh pe) log
+
+structure PushRef (cfg : Cfg) (src q : Sid) (pe : Port × Sid × TI × Port) (s : State) : Prop where
+  ok : QOk s q
+  nosd : (s.sims q).setData = []
+  hs : (chist src pe s.log).Pairwise (fun a b => a.1 ≤ b.1)
+  /-- the buffered values of the connection = the produced values not yet due at the last step, in production order -/
+  buf : keyView (keyOf src pe) (s.sims q).buffer = (chist src pe s.log).filter (fun x => after (lastBegun (s.sims q)) x.1)
+  /-- the remembered value of a persistent connection = the last produced value due at the last step, else the initial one -/
+  pers : ∀ d0, InputData.get? (cfg.sim q).persistent0 (keyOf src pe) = some d0 →
+    InputData.get? (s.sims q).persistent (keyOf src pe) =
+      some (lastVal ((chist src pe s.log).filter (fun x => !after (lastBegun (s.sims q)) x.1)) d0)
+
+theorem pushRef_frame {cfg : Cfg} {src q : Sid} {pe : Port × Sid × TI × Port} {s s' : State} (h : PushRef cfg src q pe s)
+    (hf : PFEq s s') : PushRef cfg src q pe s' := by
+  have hq := hf.pf q
+  simp only [SimSt.pf, Prod.mk.injEq] at hq
+  obtain ⟨hb, hc, hp, hg, hsd⟩ := hq
+  have hlog : chist src pe s'.log = chist src pe s.log := hf.log.pushHist src pe.1 (csh pe)
+  have hlb : lastBegun (s'.sims q) = lastBegun (s.sims q) := by unfold lastBegun; rw [hg]
+  refine ⟨?_, by rw [hsd]; exact h.nosd, by rw [hlog]; exact h.hs, by rw [hb, hlog, hlb]; exact h.buf, ?_⟩
+  · unfold QOk; rw [hb, hc]; exact h.ok
+  · intro d0 hd0
+    rw [hp, hlog, hlb]
+    exact h.pers d0 hd0
+
+theorem hits_other_source {q : Sid} {src p : Sid} (pe e : Port × Sid × TI × Port) (hp : p ≠ src) : hits q (keyOf src pe) p e = false := by
+  unfold hits
+  have : (keyOf p e == keyOf src pe) = false := by
+    simp only [beq_eq_false_iff_ne]
+    intro h
+    have := congrArg InKey.ssid h
+    simp only [keyOf] at this
+    exact hp this
+  rw [this]; simp
+
+theorem filter_hits_other_source (cfg : Cfg) {q src p : Sid} (pe : Port × Sid × TI × Port) (hp : p ≠ src) :
+    (cfg.sim p).push.filter (hits q (keyOf src pe) p) = [] := by
+  rw [List.filter_eq_nil_iff]
+  intro e _
+  rw [hits_other_source pe e hp]
+  simp
+
+theorem chist_got (src : Sid) (pe : Port × Sid × TI × Port) (p : Sid) (c oT : TT) (data : OutData) (log : List Event) :
+    chist src pe (.got p c oT data :: log) =
+      if p = src then (match OutData.get? data pe.1 with
+        | some v => chist src pe log ++ [(TT.time oT + csh pe, v)]
+        | none => chist src pe log) else chist src pe log := rfl
+
+theorem gotTimes_got (p' p : Sid) (c oT : TT) (data : OutData) (log : List Event) :
+    gotTimes p (.got p' c oT data :: log) = if p' = p then TT.time oT :: gotTimes p log else gotTimes p log := rfl
+
+/-- a `get_data` reply of `p` is entered: event logged, outputs pushed -/
+theorem pushRef_put {cfg : Cfg} {src q : Sid} {pe : Port × Sid × TI × Port} {s : State} (h : PushRef cfg src q pe s)
+    (hkey : (cfg.sim src).push.filter (hits q (keyOf src pe) src) = [pe])
+    (p : Sid) (c oT : TT) (ot : Int) (d : DataReply) (htime : TT.time oT = ot.toNat)
+    (hmono : p = src → ∀ t ∈ gotTimes src s.log, t ≤ ot.toNat)
+    (hbok : ∀ x ∈ ((storeOutputs cfg ((s.upd p fun x => { x with outTime := oT }).emit (.got p c oT d.data)) p ot d).sims q).buffer,
+      after (lastBegun (s.sims q)) x.time = true) :
+    PushRef cfg src q pe (storeOutputs cfg ((s.upd p fun x => { x with outTime := oT }).emit (.got p c oT d.data)) p ot d) := by
+  -- the state in which the outputs are stored
+  obtain ⟨s1, hs1⟩ : ∃ s1, s1 = (s.upd p fun x => { x with outTime := oT }).emit (.got p c oT d.data) := ⟨_, rfl⟩
+  rw [← hs1] at hbok ⊢
+  have h1q : (s1.sims q).pf = (s.sims q).pf := by
+    rw [hs1, State.emit_sims, State.upd_sims]; split <;> rfl
+  simp only [SimSt.pf, Prod.mk.injEq] at h1q
+  obtain ⟨hb1, hc1, hp1, hg1, hsd1⟩ := h1q
+  have hlog1 : s1.log = .got p c oT d.data :: s.log := by rw [hs1]; rfl
+  -- the store, seen through `q` and the key
+  rw [storeOutputs_eq] at hbok ⊢
+  obtain ⟨s2, hs2⟩ : ∃ s2, s2 = (if cfg.useCache then s1.upd p fun x =>
+        { x with outputs := if x.outputs.any (·.1 == ot) then x.outputs.map (fun e => if e.1 == ot then (ot, d.data) else e)
+                            else x.outputs ++ [(ot, d.data)] } else s1) := ⟨_, rfl⟩
+  rw [← hs2] at hbok ⊢
+  have h2q : (s2.sims q).pf = (s1.sims q).pf ∧ s2.log = s1.log := by
+    rw [hs2]
+    split
+    · constructor
+      · rw [State.upd_sims]; split <;> rfl
+      · rfl
+    · exact ⟨rfl, rfl⟩
+  obtain ⟨h2pf, hlog2⟩ := h2q
+  simp only [SimSt.pf, Prod.mk.injEq] at h2pf
+  obtain ⟨hb2, hc2, hp2, hg2, hsd2⟩ := h2pf
+  have hok2 : QOk s2 q := by unfold QOk; rw [hb2, hc2, hb1, hc1]; exact h.ok
+  have hlen : ((cfg.sim p).push.filter (hits q (keyOf src pe) p)).length ≤ 1 := by
+    by_cases hp : p = src
+    · rw [hp, hkey]; simp
+    · rw [filter_hits_other_source cfg pe hp]; simp
+  have hmono2 : ∀ e ∈ (cfg.sim p).push, hits q (keyOf src pe) p e = true → ∀ x ∈ (s2.sims q).buffer, x.key = keyOf src pe →
+      x.time ≤ ot.toNat + tier e.2.2.1.tiers 0 := by
+    intro e he hh x hx hxk
+    by_cases hp : p = src
+    · subst hp
+      have hepe : e = pe := by
+        have : e ∈ (cfg.sim p).push.filter (hits q (keyOf p pe) p) := List.mem_filter.mpr ⟨he, hh⟩
+        rw [hkey] at this
+        simpa using this
+      subst hepe
+      rw [hb2, hb1] at hx
+      have hv := mem_keyView hx hxk
+      rw [h.buf] at hv
+      obtain ⟨t, ht, hxt⟩ := pushHist_due p e.1 (csh e) s.log _ (List.mem_filter.mp hv).1
+      have := hmono rfl t ht
+      simp only [csh] at hxt
+      omega
+    · rw [hits_other_source pe e hp] at hh
+      cases hh
+  obtain ⟨hokF, hviewF, hpersF, hbegF⟩ := pushFold_q q (keyOf src pe) p ot d (cfg.sim p).push s2 hlen hok2 hmono2
+  -- the final `data` update does not touch `q`'s fields
+  have hfin : ∀ st : State, ((st.upd p fun x => { x with data := d.data }).sims q).pf = (st.sims q).pf := by
+    intro st; rw [State.upd_sims]; split <;> rfl
+  have hfq := hfin ((cfg.sim p).push.foldl (pushOne p ot d) s2)
+  simp only [SimSt.pf, Prod.mk.injEq] at hfq
+  obtain ⟨hbf, hcf, hpf, hgf, hsdf⟩ := hfq
+  have hlogF : (((cfg.sim p).push.foldl (pushOne p ot d) s2).upd p fun x => { x with data := d.data }).log = .got p c oT d.data :: s.log := by
+    have : ∀ (l : List (Port × Sid × TI × Port)) (st : State), (l.foldl (pushOne p ot d) st).log = st.log := by
+      intro l
+      induction l with
+      | nil => intro st; rfl
+      | cons e l ih =>
+        intro st
+        simp only [List.foldl_cons]
+        rw [ih]
+        unfold pushOne
+        split <;> rfl
+    show ((cfg.sim p).push.foldl (pushOne p ot d) s2).log = _
+    rw [this, hlog2, hlog1]
+  have hsdF : ∀ (l : List (Port × Sid × TI × Port)) (st : State), ((l.foldl (pushOne p ot d) st).sims q).setData = (st.sims q).setData := by
+    intro l
+    induction l with
+    | nil => intro st; rfl
+    | cons e l ih =>
+      intro st
+      simp only [List.foldl_cons]
+      rw [ih]
+      unfold pushOne
+      split
+      · rfl
+      · rw [State.upd_sims]; split <;> rfl
+  have hlb : lastBegun ((((cfg.sim p).push.foldl (pushOne p ot d) s2).upd p fun x => { x with data := d.data }).sims q) = lastBegun (s.sims q) := by
+    unfold lastBegun; rw [hgf, hbegF, hg2, hg1]
+  -- the adds and the history grow together
+  have hadds : ((cfg.sim p).push.filter (hits q (keyOf src pe) p)).flatMap (entryOf ot d) =
+      if p = src then (match OutData.get? d.data pe.1 with | some v => [(ot.toNat + csh pe, v)] | none => []) else [] := by
+    by_cases hp : p = src
+    · rw [if_pos hp, hp, hkey]
+      simp only [List.flatMap_cons, List.flatMap_nil, List.append_nil, entryOf, csh]
+    · rw [if_neg hp, filter_hits_other_source cfg pe hp]; rfl
+  -- the new entry is in the buffer, hence due after the last step
+  have hdue : p = src → ∀ v, OutData.get? d.data pe.1 = some v → after (lastBegun (s.sims q)) (ot.toNat + csh pe) = true := by
+    intro hp v hg
+    have hmem : (ot.toNat + csh pe, v) ∈ keyView (keyOf src pe)
+        ((((cfg.sim p).push.foldl (pushOne p ot d) s2).upd p fun x => { x with data := d.data }).sims q).buffer := by
+      rw [hbf, hviewF, hadds, if_pos hp, hg]
+      simp
+    unfold keyView at hmem
+    rw [List.mem_map] at hmem
+    obtain ⟨x, hx, hxe⟩ := hmem
+    have := hbok x (List.mem_filter.mp hx).1
+    simp only [Prod.mk.injEq] at hxe
+    rw [hxe.1] at this
+    exact this
+  refine ⟨?_, ?_, ?_, ?_, ?_⟩
+  · unfold QOk; rw [hbf, hcf]; exact hokF
+  · rw [hsdf, hsdF, hsd2, hsd1]; exact h.nosd
+  · rw [hlogF, chist_got]
+    by_cases hp : p = src
+    · rw [if_pos hp]
+      cases hg : OutData.get? d.data pe.1 with
+      | none => exact h.hs
+      | some v =>
+        simp only
+        rw [List.pairwise_append]
+        refine ⟨h.hs, List.pairwise_singleton _ _, ?_⟩
+        intro a ha b hb
+        simp only [List.mem_singleton] at hb
+        subst hb
+        obtain ⟨t, ht, hat⟩ := pushHist_due src pe.1 (csh pe) s.log a ha
+        have := hmono hp t ht
+        simp only
+        omega
+    · rw [if_neg hp]; exact h.hs
+  · rw [hbf, hviewF, hb2, hb1, h.buf, hadds, hlogF, chist_got, hlb]
+    by_cases hp : p = src
+    · rw [if_pos hp, if_pos hp]
+      cases hg : OutData.get? d.data pe.1 with
+      | none => simp
+      | some v =>
+        simp only
+        rw [List.filter_append, htime]
+        have := hdue hp v hg
+        simp [this]
+    · rw [if_neg hp, if_neg hp]; simp
+  · intro d0 hd0
+    rw [hpf, hpersF, hp2, hp1, h.pers d0 hd0, hlogF, chist_got, hlb]
+    by_cases hp : p = src
+    · rw [if_pos hp]
+      cases hg : OutData.get? d.data pe.1 with
+      | none => rfl
+      | some v =>
+        simp only
+        rw [List.filter_append, htime]
+        have := hdue hp v hg
+        simp [this]
+    · rw [if_neg hp]
+
+/-! ### a step of `q` begins -/
+
+/-- what beginning a step does to the simulator's data-flow fields and to the log -/
+theorem beginStep_fields (cfg : Cfg) (s : State) (q : Sid) (c : TT) (rest : List TT) (hnf0 : s.failed = none)
+    (hnf : (beginStep cfg s q c rest).failed = none) :
+    ∃ inp m, inp = stepInputs cfg (s.upd q fun x => { x with cur := some c, next := rest }) q c ∧
+      (beginStep cfg s q c rest).log = .begin q c inp m :: s.log ∧
+      ((beginStep cfg s q c rest).sims q).buffer = (s.sims q).buffer.filter (fun e => !(e.time ≤ TT.time c)) ∧
+      ((beginStep cfg s q c rest).sims q).ctr = (s.sims q).ctr ∧
+      ((beginStep cfg s q c rest).sims q).begun = c :: (s.sims q).begun ∧
+      ((beginStep cfg s q c rest).sims q).setData = [] ∧
+      ((beginStep cfg s q c rest).sims q).persistent =
+        (s.sims q).persistent.map (fun e => match InputData.get? inp e.1 with | some v => (e.1, v) | none => e) := by
+  obtain ⟨s1, hdef⟩ : ∃ s1, s1 = s.upd q (fun x => { x with cur := some c, next := rest }) := ⟨_, rfl⟩
+  have hf1 : s1.failed = none := by rw [hdef]; exact hnf0
+  have hlog1 : s1.log = s.log := by rw [hdef]; rfl
+  have hq1 : (s1.sims q).pf = (s.sims q).pf := by rw [hdef, State.upd_same]; rfl
+  simp only [SimSt.pf, Prod.mk.injEq] at hq1
+  obtain ⟨hb1, hc1, hp1, hg1, hsd1⟩ := hq1
+  unfold beginStep at hnf ⊢
+  simp only at hnf ⊢
+  rw [← hdef] at hnf ⊢
+  split
+  · rename_i hbad
+    rw [if_pos hbad] at hnf
+    exfalso
+    unfold State.fail at hnf
+    rw [hf1] at hnf
+    cases hnf
+  · rename_i hbad
+    split
+    · rename_i hloop
+      rw [if_neg hbad, if_pos hloop] at hnf
+      exfalso
+      unfold State.fail at hnf
+      rw [hf1] at hnf
+      cases hnf
+    · refine ⟨stepInputs cfg s1 q c, maxAdvance cfg (getInputData cfg s1 q c).2 q c, rfl, ?_, ?_, ?_, ?_, ?_, ?_⟩
+      · rw [← hlog1]; rfl
+      · simp only [getInputData, State.emit_sims, State.upd_same, bufferTake]
+        rw [hb1]
+      · simp only [getInputData, State.emit_sims, State.upd_same]
+        exact hc1
+      · simp only [getInputData, State.emit_sims, State.upd_same]
+        rw [hg1]
+      · simp only [getInputData, State.emit_sims, State.upd_same]
+      · simp only [getInputData, State.emit_sims, State.upd_same]
+        rw [hp1]
+        rfl
+
+/-- the value a fold of due entries leaves under key `k`: the last due entry of that key, else what was there -/
+theorem fold_set_get (k : InKey) : ∀ (es : List BufEntry) (inp : InputData),
+    InputData.get? (es.foldl (fun acc e => InputData.set acc e.key e.val) inp) k =
+      match (keyView k es).getLast? with
+      | some x => some x.2
+      | none => InputData.get? inp k
+  | [], inp => rfl
+  | e :: es, inp => by
+    simp only [List.foldl_cons]
+    rw [fold_set_get k es, keyView_cons]
+    by_cases hk : e.key = k
+    · have hb : (e.key == k) = true := by simp [hk]
+      rw [if_pos hb]
+      cases hv : keyView k es with
+      | nil =>
+        simp only [List.getLast?_nil, List.getLast?_singleton]
+        rw [hk]; exact InputData.get?_set_same _ _ _
+      | cons y ys =>
+        rw [List.getLast?_cons_cons]
+        cases hl : (y :: ys).getLast? with
+        | none => simp at hl
+        | some z => rfl
+    · have hb : ¬ (e.key == k) = true := by simpa using hk
+      rw [if_neg hb]
+      cases (keyView k es).getLast? with
+      | some x => rfl
+      | none => exact InputData.get?_set_other _ _ _ _ hk
+
+/-- a history in due order splits at `T ≤ c` -/
+theorem filter_split_sorted (T c : Nat) (hTc : T ≤ c) : ∀ (H : List (Nat × Val)), H.Pairwise (fun a b => a.1 ≤ b.1) →
+    H.filter (fun x => decide (x.1 ≤ c)) = H.filter (fun x => !decide (T < x.1)) ++ (H.filter (fun x => decide (T < x.1))).filter (fun x => decide (x.1 ≤ c))
+  | [], _ => rfl
+  | x :: H, hs => by
+    have hx := (List.pairwise_cons.mp hs).1
+    have hH := (List.pairwise_cons.mp hs).2
+    by_cases hxT : T < x.1
+    · -- everything from here on is after `T`
+      have hall : ∀ y ∈ x :: H, T < y.1 := by
+        intro y hy
+        rcases List.mem_cons.mp hy with rfl | hy
+        · exact hxT
+        · have := hx y hy; omega
+      have h1 : (x :: H).filter (fun x => !decide (T < x.1)) = [] := by
+        rw [List.filter_eq_nil_iff]
+        intro y hy
+        simp [hall y hy]
+      have h2 : (x :: H).filter (fun x => decide (T < x.1)) = x :: H := by
+        rw [List.filter_eq_self]
+        intro y hy
+        simp [hall y hy]
+      rw [h1, h2]; rfl
+    · have ih := filter_split_sorted T c hTc H hH
+      have hxc : x.1 ≤ c := by omega
+      rw [List.filter_cons_of_pos (by simp [hxc]), List.filter_cons_of_pos (by simp [hxT]), List.filter_cons_of_neg (by simp [hxT]), ih]
+      rfl
+
+theorem merge_keeps' (persistent : InputData) : ∀ (acc : InputData) (k : InKey) (v : Val),
+    InputData.get? acc k = some v →
+    InputData.get? (persistent.foldl (fun acc e => if InputData.has acc e.1 then acc else acc ++ [e]) acc) k = some v := by
+  induction persistent with
+  | nil => intro acc k v h; exact h
+  | cons e ps ih =>
+    intro acc k v h
+    simp only [List.foldl_cons]
+    apply ih
+    split
+    · exact h
+    · rw [InputData.get?_append_single, h]
+
+/-- a key that set_data did not provide gets the remembered persistent value -/
+theorem persistent_default' (persistent : InputData) : ∀ (acc : InputData) (k : InKey),
+    InputData.get? acc k = none →
+    InputData.get? (persistent.foldl (fun acc e => if InputData.has acc e.1 then acc else acc ++ [e]) acc) k
+      = InputData.get? persistent k := by
+  induction persistent with
+  | nil => intro acc k h; simpa [InputData.get?_nil] using h
+  | cons e ps ih =>
+    intro acc k h
+    simp only [List.foldl_cons, InputData.get?_cons]
+    by_cases hek : e.1 = k
+    · subst hek
+      have hhas : InputData.has acc e.1 = false := by rw [InputData.has_eq, h]; rfl
+      simp only [hhas, Bool.false_eq_true, if_false, if_true]
+      apply merge_keeps'
+      rw [InputData.get?_append_single, h]; simp
+    · simp only [hek, if_false]
+      apply ih
+      split
+      · exact h
+      · rw [InputData.get?_append_single, h]; simp [hek]
+
+theorem filter_false' {α : Type} (l : List α) : l.filter (fun _ => false) = [] := by
+  induction l with
+  | nil => rfl
+  | cons a l ih => simp [List.filter_cons, ih]
+
+theorem get?_map_update (inp : InputData) (k : InKey) : ∀ (pers : InputData),
+    InputData.get? (pers.map (fun e => match InputData.get? inp e.1 with | some v => (e.1, v) | none => e)) k =
+      match InputData.get? pers k with
+      | none => none
+      | some old => some ((InputData.get? inp k).getD old)
+  | [] => rfl
+  | e :: pers => by
+    simp only [List.map_cons, InputData.get?_cons]
+    have hkey : (match InputData.get? inp e.1 with | some v => (e.1, v) | none => e).1 = e.1 := by
+      split <;> rfl
+    rw [hkey]
+    by_cases hk : e.1 = k
+    · simp only [hk, if_true]
+      subst hk
+      cases InputData.get? inp e.1 with
+      | none => rfl
+      | some v => rfl
+    · simp only [hk, if_false]
+      exact get?_map_update inp k pers
+
+theorem lastVal_append (A B : List (Nat × Val)) (d : Val) :
+    lastVal (A ++ B) d = match B.getLast? with | some x => x.2 | none => lastVal A d := by
+  unfold lastVal
+  rw [List.getLast?_append]
+  cases B.getLast? with
+  | some x => rfl
+  | none => simp
+
+theorem pullInputs_nil (cfg : Cfg) (s : State) (q : Sid) (c : TT) (inp : InputData) (h : (cfg.sim q).pulled = []) :
+    pullInputs cfg s q c inp = inp := by
+  unfold pullInputs; rw [h]; rfl
+
+/-- **a step of `q` begins**: the invariant is kept, and the inputs of the request carry, under the connection's key, the
+last produced value that is due — for a persistent connection the last produced value due at or before the step time,
+the declared initial value if there is none -/
+theorem pushRef_begin {cfg : Cfg} {src q : Sid} {pe : Port × Sid × TI × Port} {s : State} (h : PushRef cfg src q pe s)
+    (hpull : (cfg.sim q).pulled = []) (c : TT) (rest : List TT) (hnf0 : s.failed = none)
+    (hnf : (beginStep cfg s q c rest).failed = none) (hT : ∀ t, lastBegun (s.sims q) = some t → t ≤ TT.time c) :
+    PushRef cfg src q pe (beginStep cfg s q c rest) ∧
+    ∃ inp m, (beginStep cfg s q c rest).log = .begin q c inp m :: s.log ∧
+      InputData.get? inp (keyOf src pe) =
+        (match ((chist src pe s.log).filter (fun x => after (lastBegun (s.sims q)) x.1 && decide (x.1 ≤ TT.time c))).getLast? with
+          | some x => some x.2
+          | none => InputData.get? (s.sims q).persistent (keyOf src pe)) ∧
+      ∀ d0, InputData.get? (cfg.sim q).persistent0 (keyOf src pe) = some d0 →
+        InputData.get? inp (keyOf src pe) = some (lastVal ((chist src pe s.log).filter (fun x => decide (x.1 ≤ TT.time c))) d0) := by
+  obtain ⟨inp, m, hinp, hlog, hbuf, hctr, hbeg, hsd, hpers⟩ := beginStep_fields cfg s q c rest hnf0 hnf
+  -- the inputs, under the key
+  have hq1 : ((s.upd q fun x => { x with cur := some c, next := rest }).sims q).pf = (s.sims q).pf := by rw [State.upd_same]; rfl
+  simp only [SimSt.pf, Prod.mk.injEq] at hq1
+  obtain ⟨hb1, _, hp1, _, hsd1⟩ := hq1
+  have hval : InputData.get? inp (keyOf src pe) =
+      (match ((chist src pe s.log).filter (fun x => after (lastBegun (s.sims q)) x.1 && decide (x.1 ≤ TT.time c))).getLast? with
+        | some x => some x.2
+        | none => InputData.get? (s.sims q).persistent (keyOf src pe)) := by
+    rw [hinp]
+    unfold stepInputs
+    simp only
+    rw [pullInputs_nil cfg _ q c _ hpull]
+    unfold bufferTake
+    simp only
+    rw [fold_set_get, hb1, hp1, hsd1, h.nosd]
+    rw [keyView_filter (keyOf src pe) (fun e => decide (e.time ≤ TT.time c)) (fun x => decide (x.1 ≤ TT.time c)) (fun _ => rfl),
+      h.buf, List.filter_filter]
+    have hdef := persistent_default' (s.sims q).persistent [] (keyOf src pe) rfl
+    rw [hdef]
+    have hcongr : (chist src pe s.log).filter (fun x => decide (x.1 ≤ TT.time c) && after (lastBegun (s.sims q)) x.1) =
+        (chist src pe s.log).filter (fun x => after (lastBegun (s.sims q)) x.1 && decide (x.1 ≤ TT.time c)) := by
+      apply List.filter_congr
+      intro x _
+      exact Bool.and_comm _ _
+    rw [hcongr]
+  have hvalP : ∀ d0, InputData.get? (cfg.sim q).persistent0 (keyOf src pe) = some d0 →
+      InputData.get? inp (keyOf src pe) = some (lastVal ((chist src pe s.log).filter (fun x => decide (x.1 ≤ TT.time c))) d0) := by
+    intro d0 hd0
+    rw [hval, h.pers d0 hd0]
+    cases hlb : lastBegun (s.sims q) with
+    | none =>
+      simp only [after, Bool.true_and, Bool.not_true]
+      rw [filter_false']
+      unfold lastVal
+      cases ((chist src pe s.log).filter (fun x => decide (x.1 ≤ TT.time c))).getLast? with
+      | some x => rfl
+      | none => rfl
+    | some t =>
+      have htc := hT t hlb
+      simp only [after]
+      rw [filter_split_sorted t (TT.time c) htc _ h.hs, lastVal_append, ← List.filter_filter]
+      have : ((chist src pe s.log).filter (fun x => decide (t < x.1))).filter (fun x => decide (x.1 ≤ TT.time c)) =
+          ((chist src pe s.log).filter (fun x => decide (x.1 ≤ TT.time c))).filter (fun x => decide (t < x.1)) := by
+        rw [List.filter_filter, List.filter_filter]
+        apply List.filter_congr
+        intro x _
+        exact Bool.and_comm _ _
+      rw [← this]
+      cases (((chist src pe s.log).filter (fun x => decide (t < x.1))).filter (fun x => decide (x.1 ≤ TT.time c))).getLast? with
+      | some x => rfl
+      | none => rfl
+  refine ⟨?_, inp, m, hlog, hval, hvalP⟩
+  -- the invariant afterwards
+  have hlb' : lastBegun ((beginStep cfg s q c rest).sims q) = some (TT.time c) := by
+    unfold lastBegun; rw [hbeg]; rfl
+  have hch : chist src pe (beginStep cfg s q c rest).log = chist src pe s.log := by
+    rw [hlog]; exact pushHist_cons_noGot src pe.1 (csh pe) _ _ rfl
+  refine ⟨?_, hsd, by rw [hch]; exact h.hs, ?_, ?_⟩
+  · unfold QOk
+    rw [hbuf, hctr]
+    refine ⟨?_, fun x hx => h.ok.2 x (List.mem_filter.mp hx).1⟩
+    unfold BufSorted
+    exact h.ok.1.sublist List.filter_sublist
+  · rw [hbuf, hch, hlb',
+      keyView_filter (keyOf src pe) (fun e => !decide (e.time ≤ TT.time c)) (fun x => !decide (x.1 ≤ TT.time c)) (fun _ => rfl),
+      h.buf, List.filter_filter]
+    apply List.filter_congr
+    intro x _
+    simp only [after]
+    cases hlb : lastBegun (s.sims q) with
+    | none =>
+      simp only
+      by_cases hx : TT.time c < x.1
+      · have h1 : ¬ x.1 ≤ TT.time c := by omega
+        simp [hx, h1]
+      · have h1 : x.1 ≤ TT.time c := by omega
+        simp [hx, h1]
+    | some t =>
+      have htc := hT t hlb
+      simp only
+      by_cases hx : TT.time c < x.1
+      · have h1 : ¬ x.1 ≤ TT.time c := by omega
+        have h2 : t < x.1 := by omega
+        simp [hx, h1, h2]
+      · have h1 : x.1 ≤ TT.time c := by omega
+        simp [hx, h1]
+  · intro d0 hd0
+    rw [hpers, get?_map_update, h.pers d0 hd0, hch, hlb']
+    simp only
+    rw [hvalP d0 hd0]
+    simp only [Option.getD_some, after]
+    congr 2
+    apply List.filter_congr
+    intro x _
+    by_cases hx : TT.time c < x.1
+    · have h1 : ¬ x.1 ≤ TT.time c := by omega
+      simp [hx, h1]
+    · have h1 : x.1 ≤ TT.time c := by omega
+      simp [hx, h1]
+
+/-! ### every action -/
+
+theorem pushRef_frame_q {cfg : Cfg} {src q : Sid} {pe : Port × Sid × TI × Port} {s s' : State} (h : PushRef cfg src q pe s)
+    (hq : (s'.sims q).pf = (s.sims q).pf) (hl : LogExt s s') : PushRef cfg src q pe s' := by
+  simp only [SimSt.pf, Prod.mk.injEq] at hq
+  obtain ⟨hb, hc, hp, hg, hsd⟩ := hq
+  have hlog : chist src pe s'.log = chist src pe s.log := hl.pushHist src pe.1 (csh pe)
+  have hlb : lastBegun (s'.sims q) = lastBegun (s.sims q) := by unfold lastBegun; rw [hg]
+  refine ⟨?_, by rw [hsd]; exact h.nosd, by rw [hlog]; exact h.hs, by rw [hb, hlog, hlb]; exact h.buf, ?_⟩
+  · unfold QOk; rw [hb, hc]; exact h.ok
+  · intro d0 hd0
+    rw [hp, hlog, hlb]
+    exact h.pers d0 hd0
+
+theorem after_of_forall {x : SimSt} {t : Nat} (h : ∀ b ∈ x.begun, TT.time b < t) : after (lastBegun x) t = true := by
+  unfold lastBegun after
+  cases hb : x.begun with
+  | nil => rfl
+  | cons b bs =>
+    simp only [List.head?_cons, Option.map_some, decide_eq_true_eq]
+    exact h b (by rw [hb]; exact List.mem_cons_self)
+
+/-- the reply of `a` reports an output time that is not before an earlier one of the same simulator -/
+def MonoActP (s : State) (a : Action) : Prop :=
+  ∀ p d c, a = .dataReply p d → (s.sims p).cur = some c → ∀ t ∈ gotTimes p s.log, (t : Int) ≤ (outTimeOf c d).1
+
+def NoSetData (a : Action) : Prop := ∀ p t e, a ≠ .setData p t e
+
+/-- **the push invariant is kept by every action** of a run without asynchronous `set_data`, given what the scheduler
+invariants provide: nothing in `q`'s buffer is due at or before a step it has begun (`BufOk`, `no_late_arrival`), and the
+step `q` begins next is not before its earlier steps -/
+theorem step_pushRef {cfg : Cfg} {src q : Sid} {pe : Port × Sid × TI × Port} {s s' : State} {a : Action}
+    (h : PushRef cfg src q pe s) (hs : step cfg s a = some s') (hf' : s'.failed = none)
+    (hkey : (cfg.sim src).push.filter (hits q (keyOf src pe) src) = [pe]) (hpull : (cfg.sim q).pulled = [])
+    (hmono : MonoActP s a) (hnsd : NoSetData a)
+    (hT : ∀ c rest, (s.sims q).next = c :: rest → ∀ b ∈ (s.sims q).begun, TT.time b ≤ TT.time c)
+    (hbok : ∀ e ∈ (s'.sims q).buffer, ∀ b ∈ (s'.sims q).begun, TT.time b < e.time) :
+    PushRef cfg src q pe s' := by
+  cases a with
+  | start p =>
+    simp only [step, stepStart] at hs
+    split at hs
+    · split at hs
+      · cases hs; exact pushRef_frame h (advance_pfEq cfg s p)
+      · cases hs; exact pushRef_frame h ((advance_pfEq cfg s p).trans (settle_pfEq cfg _ p))
+    · cases hs
+  | wake p =>
+    simp only [step, stepWake] at hs
+    split at hs
+    · cases hpc : (s.sims p).pc with
+      | awaitSettle a dl =>
+        simp only [hpc] at hs
+        split at hs
+        · have h1 : PFEq s (if cfg.rt.isSome then advance cfg (s.upd p fun y => { y with newer := false }) p
+              else (s.upd p fun y => { y with newer := false })) := by
+            have h0 : PFEq s (s.upd p fun y => { y with newer := false }) := pfEq_upd _ _ _ (fun _ => rfl)
+            split
+            · exact h0.trans (advance_pfEq cfg _ p)
+            · exact h0
+          generalize (if cfg.rt.isSome then advance cfg (s.upd p fun y => { y with newer := false }) p
+              else (s.upd p fun y => { y with newer := false })) = s2 at hs h1
+          by_cases hfl2 : s2.failed.isSome = true
+          · simp only [hfl2, if_true, Option.some.injEq] at hs
+            subst hs; exact pushRef_frame h h1
+          · simp only [hfl2, Bool.false_eq_true, if_false, Option.some.injEq] at hs
+            subst hs; exact pushRef_frame h (h1.trans (settle_pfEq cfg _ p))
+        · cases hs
+      | init => simp [hpc] at hs
+      | waitDeps t => simp [hpc] at hs
+      | inStep => simp [hpc] at hs
+      | inGet => simp [hpc] at hs
+      | done => simp [hpc] at hs
+    · cases hs
+  | deps p =>
+    simp only [step, stepDeps] at hs
+    split at hs
+    · rename_i hlive
+      have hsf : s.failed = none := by
+        simp only [live, Bool.and_eq_true, Option.isNone_iff_eq_none] at hlive
+        exact hlive.1
+      cases hpc : (s.sims p).pc with
+      | waitDeps t =>
+        simp only [hpc] at hs
+        split at hs
+        · cases hnext : (s.sims p).next with
+          | nil => simp [hnext] at hs
+          | cons c rest =>
+            simp only [hnext, Option.some.injEq] at hs
+            subst hs
+            by_cases hpq : p = q
+            · subst hpq
+              refine (pushRef_begin h hpull c rest hsf hf' ?_).1
+              intro t ht
+              unfold lastBegun at ht
+              cases hb : (s.sims p).begun with
+              | nil => rw [hb] at ht; cases ht
+              | cons b bs =>
+                rw [hb] at ht
+                simp only [List.head?_cons, Option.map_some, Option.some.injEq] at ht
+                rw [← ht]
+                exact hT c rest hnext b (by rw [hb]; exact List.mem_cons_self)
+            · have hqp : q ≠ p := fun e => hpq e.symm
+              refine pushRef_frame_q h (by rw [beginStep_other cfg s p c rest hqp]) ?_
+              -- the log grows by a `begin` event, or not at all
+              unfold beginStep
+              simp only
+              split
+              · exact (logExt_upd _ _ _).trans (logExt_fail _ _)
+              · split
+                · exact (logExt_upd _ _ _).trans (logExt_fail _ _)
+                · refine ⟨[_], rfl, ?_⟩
+                  intro e he
+                  simp only [List.mem_singleton] at he
+                  rw [he]; rfl
+        · cases hs
+      | init => simp [hpc] at hs
+      | awaitSettle a dl => simp [hpc] at hs
+      | inStep => simp [hpc] at hs
+      | inGet => simp [hpc] at hs
+      | done => simp [hpc] at hs
+    · cases hs
+  | setData p target entries => exact absurd rfl (hnsd p target entries)
+  | getDataReq p target =>
+    simp only [step, stepGetDataReq] at hs
+    split at hs
+    · split at hs
+      · cases hs; exact pushRef_frame h (pfEq_fail _ _)
+      · cases hs; exact h
+    · cases hs
+  | setEvent p t =>
+    simp only [step, stepSetEvent] at hs
+    split at hs
+    · split at hs
+      · cases hs; exact pushRef_frame h (pfEq_fail _ _)
+      · split at hs
+        · cases hs; exact pushRef_frame h (schedule_pfEq _ _ _)
+        · cases hs; exact pushRef_frame h (pfEq_emit _ _ rfl)
+    · cases hs
+  | stepReply p r =>
+    simp only [step, stepStepReply] at hs
+    split at hs
+    · cases hcur : (s.sims p).cur with
+      | none => simp [hcur] at hs
+      | some c =>
+        simp only [hcur, Option.some.injEq] at hs
+        subst hs
+        have h1 : PFEq s ((s.upd p fun y => { y with last := some c }).emit (.stepped p c)) := by
+          refine PFEq.trans ?_ (pfEq_emit _ _ rfl)
+          exact pfEq_upd _ _ _ (fun _ => rfl)
+        unfold processStepReply
+        simp only
+        cases r with
+        | bad => exact pushRef_frame h (h1.trans (pfEq_fail _ _))
+        | none =>
+          simp only
+          split
+          · exact pushRef_frame h (h1.trans (pfEq_fail _ _))
+          · exact pushRef_frame h (h1.trans (afterStep_pfEq cfg _ p c))
+        | int n =>
+          simp only
+          split
+          · exact pushRef_frame h (h1.trans (pfEq_fail _ _))
+          · split
+            · exact pushRef_frame h ((h1.trans (schedule_pfEq _ _ _)).trans (afterStep_pfEq cfg _ p c))
+            · exact pushRef_frame h (h1.trans (afterStep_pfEq cfg _ p c))
+    · cases hs
+  | dataReply p d =>
+    simp only [step, stepDataReply] at hs
+    split at hs
+    · rename_i hlive
+      cases hcur : (s.sims p).cur with
+      | none => simp [hcur] at hs
+      | some c =>
+        simp only [hcur, Option.some.injEq] at hs
+        subst hs
+        have hsf : s.failed = none := by
+          simp only [live, Bool.and_eq_true, Option.isNone_iff_eq_none] at hlive
+          exact hlive.1.1
+        unfold processDataReply at hf' hbok ⊢
+        simp only at hf' hbok ⊢
+        split
+        · rename_i hot
+          rw [if_pos hot] at hf'
+          exfalso
+          unfold State.fail at hf'
+          simp only [State.emit, State.upd, hsf] at hf'
+          cases hf'
+        · rename_i hot
+          rw [if_neg hot] at hbok
+          have hfin := finish_pfEq cfg (storeOutputs cfg ((s.upd p fun x => { x with outTime := (outTimeOf c d).2 }).emit
+            (.got p c (outTimeOf c d).2 d.data)) p (outTimeOf c d).1 d) p c
+          refine pushRef_frame ?_ hfin
+          have hq := hfin.pf q
+          simp only [SimSt.pf, Prod.mk.injEq] at hq
+          obtain ⟨hbq, _, _, hgq, _⟩ := hq
+          have ht := outTimeOf_time c d hot
+          refine pushRef_put h hkey p c (outTimeOf c d).2 (outTimeOf c d).1 d (by omega) ?_ ?_
+          · intro hp t htm
+            have := hmono p d c rfl hcur t (by rw [hp]; exact htm)
+            omega
+          · intro x hx
+            apply after_of_forall
+            intro b hb
+            have hbeg := (storeOutputs_buffer cfg ((s.upd p fun x => { x with outTime := (outTimeOf c d).2 }).emit
+              (.got p c (outTimeOf c d).2 d.data)) p (outTimeOf c d).1 d q).1
+            have hbs : (((s.upd p fun x => { x with outTime := (outTimeOf c d).2 }).emit (.got p c (outTimeOf c d).2 d.data)).sims q).begun
+                = (s.sims q).begun := by
+              rw [State.emit_sims, State.upd_sims]; split <;> rfl
+            exact hbok x (by rw [hbq]; exact hx) b (by rw [hgq, hbeg, hbs]; exact hb)
+    · cases hs
+  | tick n =>
+    simp only [step, stepTick] at hs
+    split at hs
+    · cases hs
+    · cases hs
+      exact ⟨h.ok, h.nosd, h.hs, h.buf, h.pers⟩
+
+/-! ### all runs without asynchronous `set_data` whose reported output times do not go back -/
+
+inductive ReachP (cfg : Cfg) : State → Prop where
+  | init : ReachP cfg (initState cfg)
+  | step {s s' : State} {a : Action} : ReachP cfg s → step cfg s a = some s' → MonoActP s a → NoSetData a → ReachP cfg s'
+
+theorem ReachP.reach {cfg : Cfg} {s : State} (h : ReachP cfg s) : Reach cfg s := by
+  induction h with
+  | init => exact Reach.init
+  | step _ hs _ _ ih => exact Reach.step ih hs
+
+theorem begun_le_next {cfg : Cfg} (hw : WFCfg cfg) {s : State} (hr : Reach cfg s) (hnf : s.failed = none) {q : Sid} (hq : q < cfg.n) :
+    ∀ c rest, (s.sims q).next = c :: rest → ∀ b ∈ (s.sims q).begun, TT.time b ≤ TT.time c := by
+  intro c rest hnext b hb
+  obtain ⟨hcore, _⟩ := reach_good hw hr hnf
+  have := (hcore q hq).begun_lt_next b hb c (by rw [hnext]; exact List.mem_cons_self)
+  exact TT.time_mono (TT.le_of_lt this)
+
+theorem reachP_pushRef {cfg : Cfg} (hw : WFCfg cfg) (hsh : WFShape cfg) {rank : Sid → Nat} (hfl : Flat cfg rank) (hpo : PushOk cfg)
+    {src q : Sid} {pe : Port × Sid × TI × Port} (hq : q < cfg.n)
+    (hkey : (cfg.sim src).push.filter (hits q (keyOf src pe) src) = [pe]) (hpull : (cfg.sim q).pulled = [])
+    {s : State} (hr : ReachP cfg s) : s.failed = none → PushRef cfg src q pe s := by
+  induction hr with
+  | init =>
+    intro _
+    refine ⟨⟨?_, ?_⟩, rfl, ?_, rfl, ?_⟩
+    · simp [initState, initSim, BufSorted]
+    · intro x hx; simp [initState, initSim] at hx
+    · simp [chist, pushHist, initState]
+    · intro d0 hd0
+      simp only [initState, initSim, chist, pushHist, List.filter_nil, lastVal_nil]
+      exact hd0
+  | @step s s' a hr hstep hm hn ih =>
+    intro hnf
+    have hf0 : s.failed = none := by
+      cases hf : s.failed with
+      | none => rfl
+      | some e =>
+        have := step_none_of_failed (cfg := cfg) (s := s) (by simp [hf]) a
+        rw [this] at hstep
+        cases hstep
+    exact step_pushRef (ih hf0) hstep hnf hkey hpull hm hn (begun_le_next hw hr.reach hf0 hq)
+      (reach_bufOk hw hsh hfl hpo (Reach.step hr.reach hstep) hnf q hq)
+
+/-- **push path refines the history** (flat configurations, no cached connection into `q`): when a step of `q` begins, the
+step request carries under the key of the pushed connection `pe` from `src`
+* the last value produced on the connection that became due since `q`'s previous step, if there is one — every produced
+  value leaves the buffer with the first step at or after its due time, and only then;
+* for a persistent connection: the last value `src` produced whose due time (output time + shift) is at or before the step
+  time, and the declared initial value as long as there is none. -/
+theorem begin_push_refines_spec {cfg : Cfg} (hw : WFCfg cfg) (hsh : WFShape cfg) {rank : Sid → Nat} (hfl : Flat cfg rank)
+    (hpo : PushOk cfg) {src q : Sid} {pe : Port × Sid × TI × Port} (hq : q < cfg.n)
+    (hkey : (cfg.sim src).push.filter (hits q (keyOf src pe) src) = [pe]) (hpull : (cfg.sim q).pulled = [])
+    {s s' : State} (hr : ReachP cfg s) (hnf0 : s.failed = none) (h : step cfg s (.deps q) = some s') (hnf : s'.failed = none) :
+    ∃ c inp m, s'.log = .begin q c inp m :: s.log ∧
+      InputData.get? inp (keyOf src pe) =
+        (match ((chist src pe s.log).filter (fun x => after (lastBegun (s.sims q)) x.1 && decide (x.1 ≤ TT.time c))).getLast? with
+          | some x => some x.2
+          | none => InputData.get? (s.sims q).persistent (keyOf src pe)) ∧
+      ∀ d0, InputData.get? (cfg.sim q).persistent0 (keyOf src pe) = some d0 →
+        InputData.get? inp (keyOf src pe) = some (lastVal ((chist src pe s.log).filter (fun x => decide (x.1 ≤ TT.time c))) d0) := by
+  have href := reachP_pushRef hw hsh hfl hpo hq hkey hpull hr hnf0
+  simp only [step, stepDeps] at h
+  split at h
+  · cases hpc : (s.sims q).pc with
+    | waitDeps t =>
+      simp only [hpc] at h
+      split at h
+      · cases hnext : (s.sims q).next with
+        | nil => simp [hnext] at h
+        | cons c rest =>
+          simp only [hnext, Option.some.injEq] at h
+          subst h
+          have hT : ∀ t, lastBegun (s.sims q) = some t → t ≤ TT.time c := by
+            intro t ht
+            unfold lastBegun at ht
+            cases hb : (s.sims q).begun with
+            | nil => rw [hb] at ht; cases ht
+            | cons b bs =>
+              rw [hb] at ht
+              simp only [List.head?_cons, Option.map_some, Option.some.injEq] at ht
+              rw [← ht]
+              exact begun_le_next hw hr.reach hnf0 hq c rest hnext b (by rw [hb]; exact List.mem_cons_self)
+          obtain ⟨_, inp, m, hlog, hv, hvp⟩ := pushRef_begin href hpull c rest hnf0 hnf hT
+          exact ⟨c, inp, m, hlog, hv, hvp⟩
+      · cases h
+    | init => simp [hpc] at h
+    | awaitSettle a dl => simp [hpc] at h
+    | inStep => simp [hpc] at h
+    | inGet => simp [hpc] at h
+    | done => simp [hpc] at h
+  · cases h
+
+/-! ### executable form of the run hypotheses -/
+
+def monoActPB (s : State) : Action → Bool
+  | .dataReply p d => match (s.sims p).cur with
+    | some c => (gotTimes p s.log).all (fun t => decide ((t : Int) ≤ (outTimeOf c d).1))
+    | none => true
+  | _ => true
+
+def noSetDataB : Action → Bool
+  | .setData .. => false
+  | _ => true
+
+theorem monoActPB_sound {s : State} {a : Action} (h : monoActPB s a = true) : MonoActP s a := by
+  intro p d c ha hcur t ht
+  subst ha
+  simp only [monoActPB, hcur, List.all_eq_true, decide_eq_true_eq] at h
+  exact h t ht
+
+theorem noSetDataB_sound {a : Action} (h : noSetDataB a = true) : NoSetData a := by
+  intro p t e ha
+  subst ha
+  cases h
+
+def runPB (cfg : Cfg) : State → List Action → Bool
+  | _, [] => true
+  | s, a :: as => monoActPB s a && noSetDataB a && match step cfg s a with
+    | some s' => runPB cfg s' as
+    | none => true
+
+theorem exec_reachP {cfg : Cfg} : ∀ (as : List Action) {s s' : State}, ReachP cfg s → exec cfg s as = some s' →
+    runPB cfg s as = true → ReachP cfg s'
+  | [], s, s', hr, he, _ => by
+    simp only [exec, Option.some.injEq] at he
+    subst he; exact hr
+  | a :: as, s, s', hr, he, hm => by
+    simp only [exec] at he
+    simp only [runPB, Bool.and_eq_true] at hm
+    cases hs : step cfg s a with
+    | none => rw [hs] at he; cases he
+    | some s1 =>
+      rw [hs] at he
+      simp only [hs] at hm
+      exact exec_reachP as (ReachP.step hr hs (monoActPB_sound hm.1.1) (noSetDataB_sound hm.1.2)) he hm.2
 
 end Mosaik
